@@ -384,6 +384,11 @@ def analysis_stream(rng, tier):
            bytes([0xFF, 0x25, 0, 0, 0, 0]), bytes([0x41]), bytes([0x40]), bytes([0x48]), bytes([0x4C]), bytes([0xFF]), bytes([0x0F, 0x1F])]
     A64 = [bytes.fromhex(h) for h in ["fd7bbfa9", "fd030091", "ff4300d1", "ff430091", "fd7bc1a8", "c0035fd6", "ff0f5fd6", "7f2303d5",
                                       "ff2303d5", "ffff7f91", "ffff7fd1", "f44fbea9", "f44fc2a8", "00000014", "e00f1ff8", "fd7b01a9", "1f2003d5"]]
+    import machotruth as _mt
+    # wide immediates: pre/post-index pairs far from sp, shifted add/sub
+    A64 += [_mt.a_stp_pre(28, 27, -0x120), _mt.a_stp_pre(20, 19, -0x200), _mt.a_stp_pre(29, 30, -0x1f0), _mt.a_ldp_post(28, 27, 0x120),
+            _mt.a_ldp_post(29, 30, 0x1f8), _mt.a_ldp_off(29, 30, 0x1f0), _mt.a_stp_off(29, 30, 0x1f8), _mt.a_sub_sp(0x3000), _mt.a_add_sp(0x3000),
+            _mt.a_add_fp_sp(0x1f0), _mt.A_RET, _mt.A_RETAB, _mt.A_PACIBSP]
     for arch, pool, gran in (("x86", X86, 1), ("a64", A64, 4)):
         for rep in range(2 if tier == "quick" else 30):
             s = Script(arch, "may")
